@@ -11,7 +11,7 @@ FAMILY = {
             'notified_states_only_reported', 'notified_states_only_changed', 'notified_states_all_changed',
             'notified_context_only_reported', 'notified_context_only_changed', 'notified_context_all_changed',
             'notified_new', 'notified_updated', 'notified_deleted'},
-    'C04': {'report_triple', 'report_schema_valid', 'report_truthful', 'report_only_changed', 'report_complete',
+    'C04': {'report_triple', 'report_schema_valid', 'report_truthful', 'report_only_changed', 'report_complete', 'report_description_self_contained',
             'report_mds_grouping', 'report_rest_announced', 'nosend', 'store_truthful'},
     'C03': {'nosend'},
 }
